@@ -24,7 +24,13 @@ def judge (j : Json) : R Verdict := do
   let mut corr : List String := []
   let mut spec : List String := []
   let mut tags : List String := [gen] ++ muts.map ("mut:" ++ ·)
+  let cls := ((fieldD obs "class_tags").getArr?.toOption.getD #[]).toList.filterMap (·.getStr?.toOption)
+  tags := tags ++ cls.map ("class:" ++ ·)
+  if !isNull (fieldD obs "abort") then
+    return { i, corr, spec := ["no-panic:abort"], nt := true, key, tags := tags ++ ["abort"] }
   if hasTimeout obs then
+    -- a text of a growth class (C12's known finding) that does not come back says nothing about C13
+    if !cls.isEmpty then return { i, corr, spec := [], nt := false, key, tags := tags ++ ["timeout"] }
     return { i, corr, spec := ["terminates"], nt := true, key, tags := tags ++ ["timeout"] }
   let parse := fieldD obs "parse"
   if isNull (fieldD parse "ok") then
